@@ -1,6 +1,8 @@
 (* C19 driver: variant selection, the modelled delegations, the computed JSON detail and the
    null-ness of the modelled `.ok()` fields from the extracted model; the oracle on the
-   implementation's observation (wrapper = format-specific API row by row, JSON = accessors row by row). *)
+   implementation's observation (wrapper = format-specific API row by row, JSON = accessors row by row).
+   Third round: the JSON text of ALL ten members (`resources` included, Model/WrapJsonRes.v) is rebuilt from the model and
+   compared byte for byte; the oracle json_text_full_ok drops no member. *)
 let show_err = function
   | ENull -> "Null" | EBounds -> "Bounds" | EZeroFill -> "ZeroFill" | EUnmapped -> "Unmapped"
   | EMisaligned -> "Misaligned" | EBadMagic -> "BadMagic" | EPeMagic -> "PeMagic" | EInsanity -> "Insanity"
@@ -77,6 +79,54 @@ let nlist_of_pct (s : string) : n list =
 
 let split_first c s = match String.index_opt s c with
   | Some i -> (String.sub s 0 i, String.sub s (i+1) (String.length s - i - 1)) | None -> (s, "")
+
+(* ---- third round: coverage of the branches of the `resources` serializer (Model/WrapJsonRes.v), read off the model ---- *)
+let res_tags tag fspec file m =
+  match acc_resources fspec file m with
+  | Err _ -> tag "jr-null"; tag "jr-null-accessor"
+  | Fault _ -> tag "jr-fault"
+  | Ok s ->
+    (match root s with
+     | Err _ -> tag "jr-null"; tag "jr-null-root"
+     | Fault _ -> tag "jr-fault"
+     | Ok r ->
+       let b = fsck_budget s in
+       let run d b = jwalk d s r true b in
+       let base = run jRES_DEPTH b in
+       (match base with
+        | Ok (l, _) ->
+          tag (if l = [] then "jr-empty" else "jr-array");
+          let dp = int_of_nat (jdepth (JArr l)) in
+          if dp >= 2 then tag "jr-tree";
+          if dp >= 32 then tag "jr-depth-32";
+          (* a limit mattered exactly when one more unit of it changes the value *)
+          let items = function Ok (l, _) -> Some l | _ -> None in
+          if items (run (S jRES_DEPTH) b) <> Some l then tag "jr-depth-cut";
+          if items (run jRES_DEPTH (n_of_int (int_of_n b + 1))) <> Some l then tag "jr-budget-cut";
+          (* names and entries of the part of the tree the walk visits *)
+          let budget = ref (int_of_n b) in
+          let rec visit d off top =
+            List.iter (fun e -> if !budget > 0 then begin
+              decr budget;
+              (match e_name s e with
+               | Ok (NWide ws) ->
+                 let its = decode_utf16 ws in
+                 if List.mem None its then tag "jr-lossy";
+                 if List.exists (function Some c -> int_of_n c >= 65536 | None -> false) its then tag "jr-nonbmp";
+                 tag "jr-wide"
+               | Ok (NId id) ->
+                 (match rsrc_type id with
+                  | Some _ -> tag (if top then "jr-renamed" else "jr-nested-id-kept")
+                  | None -> if top then tag "jr-top-id-plain")
+               | Ok (NStr _) -> ()
+               | Err _ -> tag "jr-name-null" | Fault _ -> tag "jr-fault");
+              (match e_entry s e with
+               | Ok (EDir o) -> if d > 0 then visit (d - 1) o false
+               | Ok (EData _) -> tag "jr-data"
+               | Err _ -> tag "jr-entry-null" | Fault _ -> tag "jr-fault")
+            end) (entries s off) in
+          visit (int_of_nat jRES_DEPTH) r true
+        | _ -> tag "jr-fault"))
 
 let handle kind fs obs =
   if kind <> "wj" then ("!unknown-kind", false, false, "unknown", None) else
@@ -219,14 +269,13 @@ let handle kind fs obs =
               ("%C3%A9", "j-utf8-2byte"); ("%E2%82%AC", "j-utf8-3byte"); ("%F0%9F%98%80", "j-utf8-4byte"); ("\\\"", "j-escape-quote");
               ("\"ByOrdinal\"", "j-import-by-ordinal"); ("\"callbacks\":null", "j-callbacks-null"); ("\"raw_data\":null", "j-rawdata-null") ];
           let text = nlist_of_pct body in
-          let model = json_of_image fspec file m in
-          if json_text_ok model text then tag "json-model-ok" else fail "json-text";
-          (* the model's own text: its nine members followed by the implementation's "resources" member (not modelled) *)
+          (* third round: all ten members, `resources` included, from the model; nothing is taken from the implementation's text *)
+          let model = json_of_image_full fspec file m in
+          if json_text_full_ok model text then tag "json-model-ok" else fail "json-text";
+          res_tags tag fspec file m;
           (match model with
-           | Ok (JObj members) ->
-             let res_member = (match parse_json text with Some (JObj l) -> List.filter (fun (k, _) -> k = k_resources) l | _ -> []) in
-             "JT:" ^ pct_of_nlist (print_json (JObj (members @ res_member)))
-           | Ok _ -> "JT:!model-not-an-object" | Err e -> "JT:!model-" ^ show_err e | Fault _ -> "JT:!model-fault")
+           | Ok j -> "JT:" ^ pct_of_nlist (print_json j)
+           | Err e -> "JT:!model-" ^ show_err e | Fault _ -> "JT:!model-fault")
         end
       end else if String.length t > 5 && String.sub t 0 5 = "json=" then begin
         json_seen := true;
